@@ -590,6 +590,17 @@ def steer(text: str, doc: Any, target: List[Tuple], budget: int) -> Dict[str, An
     after the first wrong node, so no reachable target is pruned away."""
     plan: List[int] = []
     evals = 0
+    # The search is sound only if the result is a function of the index decisions it sees.  An
+    # evaluator that draws from somewhere else (a generator of its own made before this
+    # evaluation, say) shows as: the same decisions, another result -- or no decisions at all
+    # although the result is not the only permitted one.  Then nothing can be concluded.
+    first, sim1, exc1 = _steer_eval(text, doc, [])
+    again, sim2, exc2 = _steer_eval(text, doc, [])
+    if sim1.unsupported or sim2.unsupported:
+        return {"status": "unsupported", "evals": 2}
+    if exc1 is None and exc2 is None:
+        if first != again or [d[:2] for d in sim1.decisions] != [d[:2] for d in sim2.decisions] or (not sim1.decisions and first != target):
+            return {"status": "unsupported", "evals": 2}
     while evals < budget:
         evals += 1
         res, sim, exc = _steer_eval(text, doc, plan)
@@ -601,6 +612,10 @@ def steer(text: str, doc: Any, target: List[Tuple], budget: int) -> Dict[str, An
             return {"status": "reached", "evals": evals, "decisions": len(sim.decisions)}
         p = next((i for i, (a, b) in enumerate(zip(res, target)) if a != b), min(len(res), len(target)))
         dec = sim.decisions
+        if not dec:
+            # another result than the target without a single decision seen: the choices are made
+            # somewhere this search cannot see
+            return {"status": "unsupported", "evals": evals}
         k = max((i for i, d in enumerate(dec) if d[2] <= p), default=-1)
         if k < 0:
             return {"status": "unreachable", "evals": evals, "at": p}
